@@ -283,8 +283,27 @@ def generate(seed, tier):
     primes = []
     for _ in hs:
         x = rp.random()
-        if x < 0.5:
+        if x < 0.4:
             primes.append([])
+        elif x < 0.5:
+            # the same value (or an ==-equal variant) was dumped before under OTHER options and possibly by another dumper
+            # class: what a dump writes under these options must not depend on it (option-blind memos)
+            alt = gen_opts(rp, dumper.startswith('C'))
+            flip = rp.choice(['allow_unicode', 'allow_unicode', 'canonical', 'default_flow_style', 'width', 'default_style', 'sort_keys', 'indent'])
+            if flip in ('allow_unicode', 'canonical'):
+                alt[flip] = not opts.get(flip, False)
+            elif flip == 'sort_keys':
+                alt[flip] = not opts.get(flip, True)
+            elif flip == 'default_flow_style':
+                alt[flip] = rp.choice([v for v in (True, False, None) if v != opts.get(flip, False)])
+            elif flip == 'width':
+                alt[flip] = rp.choice([v for v in (20, 40, 80, 200) if v != opts.get(flip, 80)])
+            elif flip == 'indent':
+                alt[flip] = rp.choice([v for v in (2, 3, 4, 7) if v != opts.get(flip, 2)])
+            else:
+                alt[flip] = rp.choice([v for v in ('"', "'", '|', '>') if v != opts.get(flip)])
+            odumper = dumper if rp.random() < 0.6 else rp.choice(['SafeDumper', 'CSafeDumper'] + (['Dumper', 'CDumper'] if dumper in ('Dumper', 'CDumper') else []))
+            primes.append([['other', recipe if rp.random() < 0.7 else equal_variant(rp, recipe), {'opts': alt, 'dumper': odumper}]])
         elif x < 0.8:
             primes.append([equal_variant(rp, recipe)])
         elif x < 0.86:
@@ -403,6 +422,7 @@ def _execute(case):
     out['faults']['process-change'] = len(case['hashseeds']) - 1
     out['faults']['insertion-permutation'] = (len(case['perms']) - 1) * len(case['hashseeds'])
     out['faults']['different-dump-history'] = sum(1 for p in primes if p)
+    out['faults']['same-value-dumped-before-under-other-options'] = sum(1 for p in primes if p and p[0] and p[0][0] == 'other')
     if len(set(a['set_order'] for a in answers.values())) > 1:
         out['probes']['set_iteration_order_differed_between_interpreters'] = 1
     if case.get('multi'):
